@@ -44,6 +44,9 @@ MAP = [
     ("flow-conservation check must not depend on the order in which float values are summed", "C19", "an exactly conserved float flow (0.1,0.2,0.3 in / 0.3,0.2,0.1 out) was rejected by kFlowDecomp, MinFlowDecomp, MinFlowDecompCycles depending on edge insertion order (float sums compared with !=)"),
     ("kFlowDecomp must not crash on an all-zero flow", "C19", "kFlowDecomp / MinFlowDecomp raised IndexError on an all-zero flow (greedy shortcut indexed an empty path list)"),
     ("malformed constraints must be rejected with ValueError, not IndexError/TypeError", "C19", "[[]] on node-weighted input raised IndexError; an edge written as a list raised TypeError in kFlowDecomp, MinFlowDecomp, kLeastAbsErrors, kLeastAbsErrorsCycles, kMinPathErrorCycles"),
+    ("guessed-weights helper of MinFlowDecompCycles must get the additional start/end nodes", "C05", "MinFlowDecompCycles(flow_attr_origin='node', additional_starts/ends, optimize_with_guessed_weights=True) raised ValueError on a graph without natural source/sink (ring): the helper kFlowDecompCycles was built without the additional start/end nodes (also C11)"),
+    ("elements_to_ignore_percentile must be computed over the weighted elements only", "C11", "kMinPathErrorCycles node mode: the percentile was taken over all edges of the node-expanded graph incl. the connecting edges that inherit the original edges' attributes; node-weighted graphs whose edges carry an attribute of the same name got other nodes ignored (up to 'Failed to add columns')"),
+    ("node-covering path covers must take the node lengths into the node expansion", "C11", "kPathCover/MinPathCover(cover_type='node') with subpath_constraints_coverage_length counted the connecting edges of an edge-list constraint with length 1 (NodeExpandedDiGraph built without node_length_attr): differs from the explicitly expanded instance (also C10)"),
     ("MinErrorFlow with few_flow_values_epsilon on node-weighted", "C16", "MinErrorFlow(flow_attr_origin='node', few_flow_values_epsilon>0) raised KeyError"),
 ]
 def main():
